@@ -886,10 +886,20 @@ Proof.
   eapply rel_trans; [exact R2|apply rel_send_session].
 Qed.
 
+Lemma rel_transient_update xs h k r del key val : Rel xs h (fst (transient_update h k r del key val)).
+Proof.
+  unfold transient_update.
+  assert (Hn : forall d m, Rel xs h (fst (transient_notify h k r d m))).
+  { intros d m. unfold transient_notify. apply rel_fold_sessions; [rel_ns|]. intros. apply rel_send_session. }
+  destruct (del || N.eqb val 0).
+  - destruct (aget (r_transient r) key); [apply Hn|apply rel_refl].
+  - destruct (aget (r_transient r) key) as [v|]; [destruct (N.eqb v val); [apply rel_refl|apply Hn]|apply Hn].
+Qed.
+
 Lemma rel_room_request xs h k q : Rel xs h (fst (room_request h k q)).
 Proof.
   unfold room_request. destruct (room_of h k) as [r|]; [|apply rel_refl].
-  destruct q as [|users rs|tag|l|l|ic|tag|ok]; [| | | | | | |apply rel_refl].
+  destruct q as [|users rs|tag|l|l|ic|tag|ok|del key val]; [| | | | | | |apply rel_refl|apply rel_transient_update].
   - match goal with |- context [fold_sessions h ?int ?f] => destruct (fold_sessions h int f) as [h0 o0] eqn:H0 end.
     assert (R0 : Rel xs h h0).
     { rewrite (fst_eq _ _ _ H0). apply rel_fold_sessions; [apply rel_refl|]. intros. apply rel_send_session. }
@@ -984,7 +994,7 @@ Qed.
 
 Lemma rel_do_api xs h b room q : Rel xs h (fst (do_api h b room q)).
 Proof.
-  unfold do_api. destruct q as [|users rs|tag|l|l|ic|tag|ok]; cbn [fst]; try rel_ns.
+  unfold do_api. destruct q as [|users rs|tag|l|l|ic|tag|ok|del key val]; cbn [fst]; try rel_ns.
   - apply rel_fold_left.
     + apply rel_fold_left; [apply rel_refl|]. intros. rel_ns.
     + intros hh x. destruct (aget (h_rs2 hh) (1000000 + x)); [rel_ns|apply rel_refl].
@@ -1372,12 +1382,9 @@ Proof.
   - apply Hws. intros. now apply inv_do_media.
   - now apply inv_do_mcudone.
   - apply Hws. intros cn sid s Hc Hs. destruct (s_room s) as [k|]; [|exact I].
-    destruct (negb (allowed_transient s)); [exact I|]. destruct (room_of h k) as [r|]; [|exact I]. cbv zeta.
-    destruct (N.eqb kindn 0).
-    + destruct (aget (r_transient r) key) as [v|].
-      * destruct (N.eqb v val); [exact I|]. apply Hrel. apply rel_fold_sessions; [rel_ns|]. intros. apply rel_send_session.
-      * apply Hrel. apply rel_fold_sessions; [rel_ns|]. intros. apply rel_send_session.
-    + destruct (aget (r_transient r) key); [|exact I]. apply Hrel. apply rel_fold_sessions; [rel_ns|]. intros. apply rel_send_session.
+    destruct (2 <=? kindn); [exact I|].
+    destruct (negb (allowed_transient s)); [exact I|]. destruct (room_of h k) as [r|]; [|exact I].
+    apply Hrel, rel_transient_update.
   - now apply inv_deliver_at.
 Qed.
 
